@@ -46,6 +46,7 @@ type Thread struct {
 	idleWait bool
 	sleeping bool
 	wakeAt   int64
+	deadline int64 // >0: a blocked operation becomes enabled when the virtual clock reaches it
 	Panic    interface{}
 	Stack    string
 	pcs      [12]uintptr
@@ -68,6 +69,7 @@ type Exec struct {
 	teardown  bool
 	ended     bool
 	inInv     bool
+	quiet     bool
 	Fails     []Failure
 	obs       []string
 	Trace     []string
@@ -145,6 +147,9 @@ func (e infraError) Error() string { return e.msg }
 
 // choose records a branching point and returns the alternative to take.
 func (x *Exec) choose(kind ChoiceKind, n int, runEn bool, label string) int {
+	if x.quiet {
+		return 0 // deterministic phase (set-up / drain): default choice, not a branching point
+	}
 	i := len(x.Choices)
 	pick := 0
 	if i < len(x.prefix) {
@@ -236,6 +241,32 @@ func shortCaller() string {
 	}
 }
 
+// PointDeadline is Point for an operation that also becomes enabled when the virtual clock
+// reaches deadline (nanoseconds on the virtual clock, 0 = none). The enabled function must
+// itself report true once the clock has passed the deadline.
+func PointDeadline(kind string, obj interface{}, enabled func() bool, deadline int64) {
+	x := Active()
+	if x == nil || x.inInv {
+		return
+	}
+	if x.teardown {
+		runtime.Goexit()
+	}
+	x.cur.deadline = deadline
+	t := x.cur
+	Point(kind, obj, enabled)
+	t.deadline = 0
+}
+
+// Quiet switches branching off (true) or on (false): while quiet every choice takes its default
+// and is not recorded. Harnesses use it for deterministic set-up and drain phases so that the
+// exploration budget is spent on the racing phase only.
+func Quiet(q bool) {
+	if x := Active(); x != nil {
+		x.quiet = q
+	}
+}
+
 // Yield is an always-enabled scheduling point.
 func Yield(kind string) { Point(kind, nil, nil) }
 
@@ -286,15 +317,21 @@ func (x *Exec) schedule(from *Thread) {
 			idle.idleWait = false
 			continue
 		}
-		var earliest *Thread
+		next := int64(-1)
 		for _, t := range x.threads {
-			if !t.done && t.sleeping && (earliest == nil || t.wakeAt < earliest.wakeAt) {
-				earliest = t
+			if t.done {
+				continue
+			}
+			if t.sleeping && (next < 0 || t.wakeAt < next) {
+				next = t.wakeAt
+			}
+			if !t.sleeping && t.deadline > x.clock && (next < 0 || t.deadline < next) {
+				next = t.deadline
 			}
 		}
-		if earliest != nil {
-			if earliest.wakeAt > x.clock {
-				x.clock = earliest.wakeAt
+		if next >= 0 {
+			if next > x.clock {
+				x.clock = next
 			}
 			for _, t := range x.threads {
 				if t.sleeping && t.wakeAt <= x.clock {
